@@ -238,3 +238,12 @@ Qed.
 Theorem transfer_ignores_off_path same onp es ts :
   transfer same onp es ts = transfer same onp (on_path onp es) ts.
 Proof. apply emit_off_path. Qed.
+
+Theorem flatten_reads_equal onp es V : dst_read (flatten_at onp es V) V = src_read onp es V.
+Proof.
+  unfold flatten_at, dst_read. destruct (src_read onp es V) as [b|] eqn:E; cbn [read_le view]; [|reflexivity].
+  rewrite Nat.leb_refl. reflexivity.
+Qed.
+
+Theorem flatten_only_at onp es V v e : In (v, e) (flatten_at onp es V) -> v = V.
+Proof. unfold flatten_at. destruct (src_read onp es V); [intros [H|[]]; inversion H; reflexivity|intros []]. Qed.
